@@ -19,6 +19,9 @@ TYP = {
     "Lit": "Literal['a', 'b']", "Opt_Lit": "Optional[Literal['a', 'b']]", "List_str": "List[str]",
     "Union_int_str": "Union[int, str]", "Dotted": "np.ndarray", "Any": "Any", "Opt_Any": "Optional[Any]",
     "Lit3u": "Literal['b', 'a', 'c']",
+    # type names no built-in table knows (C10: emitters that consult a process-wide table by membership)
+    "Named": "Checksum", "Bytes": "bytes", "Union_int_Named": "Union[int, Checksum]", "Union_Named_int": "Union[Checksum, int]",
+    "List_Named": "List[Checksum]", "Opt_Named": "Optional[Checksum]", "Union_str_Bytes": "Union[str, bytes]",
     "Lit2": "Literal['utf_8', 'v1']", "Opt_Lit2": "Optional[Literal['utf_8', 'v1']]",
     "LitP": "Literal['channels-first', 'channels last', 'v1.2']", "Opt_LitP": "Optional[Literal['channels-first', 'channels last', 'v1.2']]",
 }
@@ -128,8 +131,10 @@ class Gamma(object):
         if c == "long":
             text = ("the {} is described by a sentence that is long enough to be wrapped at the configured line length of one hundred "
                     "columns and then some more words follow it until it is wrapped twice over if need be").format(name)
+            # exactly LONG_LEN characters (a sweep over consecutive lengths then puts the wrap column on EVERY position of the line,
+            # also between two particular words); a cut that ends in a blank ends in a letter instead
             cut = text[:LONG_LEN[0]]
-            return True, cut[:cut.rindex(" ")] if " " in cut[20:] else cut
+            return True, cut[:-1] + "x" if cut.endswith(" ") else cut
         if c == "multi":
             return True, "the {}\nsecond line of it".format(name)
         if c == "trig_number":
